@@ -64,6 +64,13 @@ impl Prop for C06 {
             }
             gw.world.configs[0].push(m);
             mark("probe.mode_differing_only_in_lookaheads");
+            // lookaheads make scanning quadratic to cubic in the length of a run (section 12, item
+            // 17): keep the inputs of such worlds short, like gen_world does for its own lookaheads
+            for inp in gw.world.inputs.iter_mut() {
+                if inp.chars().count() > 300 {
+                    *inp = inp.chars().take(300).collect();
+                }
+            }
         }
         if gw.world.configs[0].len() == 1 && rng.chance(1, 2) {
             // single-mode worlds are less interesting here: duplicate the mode with a twist
